@@ -214,5 +214,5 @@ func GenPad(t *rapid.T) int {
 	if rapid.IntRange(0, 3).Draw(t, "padSel") != 0 {
 		return 0
 	}
-	return rapid.SampledFrom([]int{63, 64, 65, 255, 256, 257, 1023, 1024, 1025, 2048, 4096, 4097, 10000}).Draw(t, "pad")
+	return rapid.SampledFrom([]int{63, 64, 65, 255, 256, 257, 1023, 1024, 1025, 2048, 4096, 4097, 10001, 65537, 65539}).Draw(t, "pad")
 }
